@@ -10,6 +10,7 @@ import (
 	"errors"
 	"net/http"
 	"regexp"
+	"sort"
 	"strings"
 )
 
@@ -80,10 +81,11 @@ func ParseHeader(val string) (Header, error) {
 func (h *Header) Apply(hh http.Header) {
 	switch h.Action {
 	case Remove:
-		hh.Del(h.Name)
+		removeHeadersByName(hh, h.Name)
 	case RemoveByPrefix:
 		removeHeadersByPrefix(hh, h.Name)
 	case Empty:
+		removeHeadersByName(hh, h.Name)
 		hh.Set(h.Name, "")
 	case Add:
 		hh.Add(h.Name, *h.Value)
@@ -95,16 +97,35 @@ func (h *Header) Apply(hh http.Header) {
 		// and server crashes.
 
 		// To achieve this funcionality we utilize http.Header type being a map
-		//  and replace canonicalized key with raw name
+		//  and replace the existing key(s), however they are spelled, with raw name
 
-		canonicalizedName := http.CanonicalHeaderKey(h.Name)
-
-		_, ok := hh[canonicalizedName]
-
-		if ok { // key exists, replace it
-			hh[h.Name] = hh[canonicalizedName]
-			delete(hh, canonicalizedName)
+		var values []string
+		for _, k := range keysEqualFold(hh, h.Name) {
+			values = append(values, hh[k]...)
+			delete(hh, k)
 		}
+		if values != nil { // key exists, replace it
+			hh[h.Name] = values
+		}
+	}
+}
+
+// keysEqualFold returns, in sorted order, the keys of h that are equal to name under case folding.
+// The map may hold non-canonical keys once a RenameCase rule has been applied.
+func keysEqualFold(h http.Header, name string) []string {
+	var keys []string
+	for k := range h {
+		if strings.EqualFold(k, name) {
+			keys = append(keys, k)
+		}
+	}
+	sort.Strings(keys)
+	return keys
+}
+
+func removeHeadersByName(h http.Header, name string) {
+	for _, k := range keysEqualFold(h, name) {
+		delete(h, k)
 	}
 }
 
@@ -114,7 +135,7 @@ func removeHeadersByPrefix(h http.Header, prefix string) {
 			continue
 		}
 		if strings.EqualFold(k[0:len(prefix)], prefix) {
-			h.Del(k)
+			delete(h, k)
 		}
 	}
 }
